@@ -38,8 +38,10 @@ def r1(ctx: Ctx) -> None:
     fl = get_flow(proj, f)
     cfg = fl.cfg
     loops = [s for s in cfg.stmts() if isinstance(s, ast.For)]
-    outer = [lp for lp in loops if not any(isinstance(a, ast.For) for a in ancestors(lp))]
-    inner = [lp for lp in loops if any(isinstance(a, ast.For) for a in ancestors(lp))]
+    # the merchant loop is the one over the merchant_groups parameter; other top-level loops (e.g. one that initialises the result) are not part of it
+    outer = [lp for lp in loops if not any(isinstance(a, ast.For) for a in ancestors(lp)) and src(lp.iter) == f.params[1]] or \
+        [lp for lp in loops if not any(isinstance(a, ast.For) for a in ancestors(lp))]
+    inner = [lp for lp in loops if any(a is outer[0] for a in ancestors(lp))] if len(outer) == 1 else []
     if len(outer) != 1 or len(inner) != 1:
         ctx.unknown('C10.R1', f, f'{len(outer)} outer / {len(inner)} inner loops in classify_merchants (a merchant x view double loop expected)')
     mvar = outer[0].target.id if isinstance(outer[0].target, ast.Name) else None
@@ -83,6 +85,13 @@ def r1(ctx: Ctx) -> None:
     # result initialised with every view, in file order
     init = [s for s in cfg.stmts() if isinstance(s, (ast.Assign, ast.AnnAssign)) and src(s.targets[0] if isinstance(s, ast.Assign) else s.target) == 'result']
     ok = bool(init) and isinstance(init[0].value, ast.DictComp) and src(init[0].value.generators[0].iter) == f'{f.params[0]}.sections' and not init[0].value.generators[0].ifs
+    if not ok and init and isinstance(init[0].value, ast.Dict) and not init[0].value.keys:
+        # the same initialisation spelled as a loop: result = {}; for view in config.sections: result[view.name] = []   (unconditional, before the merchant loop)
+        for lp in [s for s in cfg.stmts() if isinstance(s, ast.For) and s is not outer[0] and not any(isinstance(a, ast.For) for a in ancestors(s))]:
+            if src(lp.iter) == f'{f.params[0]}.sections' and isinstance(lp.target, ast.Name) and len(lp.body) == 1 and isinstance(lp.body[0], ast.Assign) \
+                    and src(lp.body[0].targets[0]) == f'result[{lp.target.id}.name]' and isinstance(lp.body[0].value, ast.List) and not lp.body[0].value.elts \
+                    and lp.lineno < outer[0].lineno and not cfg.guard_literals(lp):
+                ok = True
     ctx.check(ok, 'C10.R1', f, 'result-init', 'every view gets a (possibly empty) member list', f'result initialised as {src(init[0].value)[:50] if init else None!r}')
 
     # ownership: parameters never mutated, copies made before adding locals
@@ -290,6 +299,16 @@ def r4(ctx: Ctx) -> None:
     rets = [s for s in fl.cfg.stmts() if isinstance(s, ast.Return) and not isinstance(s.value, ast.Constant)]
     ok = ok and len(rets) == 1 and src(rets[0].value).replace(' ', '') in ('stddev/avg',)
     ctx.check(ok, 'C10.R4', f, 'ratio', 'cv = stddev / mean', f'returns {src(rets[0].value) if rets else None!r}')
+    # the figure is a function of the merchant's own payments only: nothing else of the context (analysis period, variables …) flows into it
+    big = [r for r in fl.cfg.stmts() if isinstance(r, ast.Return) and r.value is not None and not isinstance(r.value, ast.Constant)]
+    if big:
+        at = fl.atoms(big[0].value, big[0], stores=True)
+        others = sorted(a for a in at if a.startswith('attr:self.') and a != 'attr:self.transactions')
+        muts = [c for c in fl.calls() if isinstance(c.func, ast.Attribute) and isinstance(c.func.value, ast.Name) and c.func.value.id == 'values'
+                and c.func.attr in ('append', 'extend', 'insert', 'pop', 'remove', 'sort', 'reverse', 'clear')]
+        ctx.check(not others and not muts, 'C10.R4', f, 'own-months-only', 'cv is computed from the monthly totals of this merchant\'s own payments and nothing else',
+                  f'cv also depends on {others or [src(m)[:40] for m in muts]}: months without a payment (or other context) enter the figure, so it is no longer the coefficient of variation '
+                  f'of the monthly totals (a merchant paying the same amount in 2 of 7 months moves from `cv < 0.3` to `cv >= 0.3`)', (muts[0] if muts else big[0]))
     vals = text.get('values')
     ctx.check(vals is not None and src(vals.value) == 'list(monthly_totals.values())', 'C10.R4', f, 'values', 'computed over the monthly totals',
               f'values = {src(vals.value) if vals is not None else None!r}')
